@@ -34,21 +34,23 @@ if [ "$TIER" = "thorough" ]; then TO="${VERIF_TIMEOUT:-5400}"; else TO="${VERIF_
 LOG="$SCR/stderr.log"
 timeout -s QUIT -k 20 "$TO" "$BIN" "$@" 2> "$LOG"
 rc=$?
-case $rc in
-  0|1) exit $rc ;;
-  2) if grep -q '^SIGQUIT' "$LOG"; then
-       mkdir -p "replays/$ID"; cp "$LOG" "replays/$ID/timeout-$TIER-seed$VERIF_SEED.log"
-       echo "INCONCLUSIVE property=$ID reason=watchdog-timeout-${TO}s (goroutine dump: replays/$ID/timeout-$TIER-seed$VERIF_SEED.log)"
-     fi
-     exit 2 ;;
-  124|137) echo "INCONCLUSIVE property=$ID reason=watchdog-timeout-${TO}s"; exit 2 ;;
-  *) # the harness process died: unrecovered panic / runtime fatal error in the code under test
-     mkdir -p "replays/$ID"; R="replays/$ID/crash-$TIER-seed$VERIF_SEED.log"
-     { echo "exit code $rc"; tail -n 400 "$LOG"; } > "$R"
-     if grep -qE '^(fatal error:|panic:)' "$LOG"; then
-       echo "VIOLATION property=$ID replay=$VERIF_DIR/$R"
-       grep -m1 -E '^(fatal error:|panic:)' "$LOG"
-       exit 1
-     fi
-     echo "INCONCLUSIVE property=$ID reason=harness-exit-$rc (see $R)"; exit 2 ;;
-esac
+if [ $rc -eq 0 ] || [ $rc -eq 1 ]; then exit $rc; fi
+mkdir -p "replays/$ID"
+if grep -q '^SIGQUIT' "$LOG" || [ $rc -eq 124 ] || [ $rc -eq 137 ]; then
+  cp "$LOG" "replays/$ID/timeout-$TIER-seed$VERIF_SEED.log"
+  echo "INCONCLUSIVE property=$ID reason=watchdog-timeout-${TO}s (goroutine dump: replays/$ID/timeout-$TIER-seed$VERIF_SEED.log)"
+  exit 2
+fi
+if grep -qE '^(fatal error:|panic:)' "$LOG"; then
+  # the harness process died: unrecovered panic / runtime fatal error in the code under test
+  # (a Go panic exits with status 2, the same code the harness uses for "inconclusive", so the log decides)
+  R="replays/$ID/crash-$TIER-seed$VERIF_SEED.log"
+  { echo "exit code $rc"; tail -n 400 "$LOG"; } > "$R"
+  echo "VIOLATION property=$ID replay=$VERIF_DIR/$R"
+  grep -m1 -E '^(fatal error:|panic:)' "$LOG"
+  exit 1
+fi
+if [ $rc -eq 2 ]; then exit 2; fi
+R="replays/$ID/crash-$TIER-seed$VERIF_SEED.log"
+{ echo "exit code $rc"; tail -n 400 "$LOG"; } > "$R"
+echo "INCONCLUSIVE property=$ID reason=harness-exit-$rc (see $R)"; exit 2
